@@ -54,6 +54,12 @@ class Parser:
         for name, actions in [('', builtin)] + packages:
             self.init_package(name, actions, [], 0)
 
+        # instrumentation for verification, inactive unless YALAFI_VERIF=1
+        from . import _verif
+        if _verif.ON:
+            self.remove_pure_action_lines = _verif.wrap_rpal(
+                                        self.remove_pure_action_lines)
+
     #   call handler of a package module:
     #   - load other required packages
     #   - let package handler update parameter object
